@@ -231,18 +231,16 @@ def parse_dump(text):
 
 
 def run_one(vbrush, text):
-    try:
-        p = subprocess.run([vbrush, "--norc", "--noprofile", "-c", text], stdin=subprocess.DEVNULL, stdout=subprocess.PIPE,
-                           stderr=subprocess.PIPE, timeout=60, cwd="/var/tmp",
-                           env={"PATH": "/usr/bin:/bin", "HOME": "/var/tmp", "LC_ALL": "C"})
-        out = p.stdout.decode("utf-8", "replace")
-    except subprocess.TimeoutExpired:
+    rc, o, e = core.run_in_group([vbrush, "--norc", "--noprofile", "-c", text], 60, cwd="/var/tmp",
+                                 env={"PATH": "/usr/bin:/bin", "HOME": "/var/tmp", "LC_ALL": "C"})
+    if rc is None:
         return None, "timeout"
+    out = o.decode("utf-8", "replace")
     m = re.search(r"@@BEFORE\n(.*?)@@MID\n.*?@@AFTER\n(.*?)@@END", out, flags=re.S)
     if not m and "@@MID" in out and "@@AFTER" not in out:
-        return None, "exited %d" % p.returncode
+        return None, "exited %d" % rc
     if not m:
-        return None, "no complete dump (exit %s): %s" % (p.returncode, (out[-300:] + p.stderr.decode("utf-8", "replace")[-300:]))
+        return None, "no complete dump (exit %s): %s" % (rc, (out[-300:] + e.decode("utf-8", "replace")[-300:]))
     return (parse_dump(m.group(1)), parse_dump(m.group(2))), None
 
 
